@@ -1,7 +1,7 @@
 """C08 — MPR penetration result (structural clauses)."""
 from . import scopes
 from ..core.report import DOMAIN_D
-from ..rules import mink, unitdir, loops
+from ..rules import mink, unitdir, loops, unpack
 
 
 def run(idx, rep, tier):
@@ -18,3 +18,4 @@ def run(idx, rep, tier):
     mink.r_par(idx, rep)
     mink.r_mink(idx, rep, modules=["distance3d.mpr", "distance3d.minkowski"], floor=8)
     loops.r_loop(idx, rep, ["distance3d.mpr"], floor=3)
+    unpack.r_unpack(idx, rep, floor=6)
